@@ -19,9 +19,10 @@ from fractions import Fraction
 import numpy as np
 
 from harness.common import enc, Z, B, kids, tag, to_zs, is_err, err_code
+from harness import c14_syntax
 
 PROP = 'C14'
-GENERATORS = ['gen_datamut']
+GENERATORS = ['gen_datamut', 'gen_parse']
 TRUSTED = [
     'hand model coq/C14/Model.v of BinaryComponentLink.compute, ComponentLink.compute, ParsedCommand.evaluate and update_id (with the two '
     'fix commits): tied by correspondence only',
@@ -29,7 +30,10 @@ TRUSTED = [
     '(coq/gen/Gen_datamut.v) and proved equal to the model (coq/C14/GenEquiv.v); trusted there: the translator, its prelude, the instance '
     'env14 (link.get_from_ids() = leaves of the defining expression); the generated update_id / reorder_components run against the code only',
     'numpy arithmetic, indexing and stride bookkeeping are the platform; the model keeps per axis a length and a stride-0 flag',
-    'ParsedCommand (regular expression + eval) and user functions are arbitrary Python: exercised by correspondence and oracle only',
+    'ParsedCommand: eval of the dereferenced command and user functions are arbitrary Python: exercised by correspondence and oracle only; '
+    'the tag grammar is modelled: parse._validate is regenerated from parse.py (tools/gen/gen_parse.py -> coq/gen/Gen_parse.v) and proved to '
+    'build the model\'s replacement table; the tokenizer for TAG_RE is fixed text emitted only for the verbatim pattern (\\s table read from the '
+    'live re module) and tied by exhaustive correspondence; str.replace on the string vs the rewrite on token lists: correspondence only',
     'floating point: only elements whose exact rational evaluation is representable at every intermediate step are compared (dyadic inputs make that almost all)',
     'slice resolution (slice.indices) is done by CPython in the harness; the model receives per-axis position lists',
 ]
@@ -1569,6 +1573,7 @@ def run(R):
     stream_exhaustive(R)
     stream_random(R)
     stream_fancy(R)
+    c14_syntax.stream(R)
     R.stream('generated-code', cases=GEN_STATS['cases'], exhaustive=True, structural_ops=GEN_STATS['ops'],
              bound='every case of the streams above that has a remove_component / update_id / reorder_components step, re-run with these '
                    'three taken from coq/gen/Gen_datamut.v (translated from data.py) instead of the hand-written model; structure compared '
@@ -1576,6 +1581,8 @@ def run(R):
 
 
 def replay(R, case):
+    if isinstance(case, dict) and case.get('kind') == 'syntax':
+        return c14_syntax.replay(R, case)
     c = case_from_json(case)
     out = {'case': case}
     W, res = run_case_real(c)
